@@ -258,6 +258,7 @@ const preludeBase = `
 (define-fun imin ((x Int) (y Int)) Int (ite (<= x y) x y))
 (define-fun imax ((x Int) (y Int)) Int (ite (>= x y) x y))
 (declare-fun root (Int) Int)
+(declare-fun rkind (Int) Int)
 (declare-fun slen (Int) Int)
 (declare-fun sat (Int Int) Int)
 (declare-fun bitand (Int Int) Int)
